@@ -1,6 +1,7 @@
 CONSTANTS
-  Handles = {"conn", "clone", "stream", "proxy"}
+  Handles = {"conn", "clone", "stream"}
   Calls = {1, 2}
+  NOTIFY_ALL = TRUE
 SPECIFICATION LSpec
 INVARIANTS ClosedOnlyWhenUnreferenced ShutdownAfterReplies
 PROPERTIES ClosesEventually ShutdownCompletes
